@@ -413,6 +413,20 @@ class OFolder(Folder):
             k2 = dict(f.kw)
             k2.update(kw)
             return self.v_call(target, list(f.args) + list(args), k2, node, env)
+        if f is map and len(args) >= 2:
+            its = [self.v_iter(a) for a in args[1:]]
+            return [self.v_call(args[0], list(xs), {}, node, env) for xs in zip(*its)]
+        if f is filter and len(args) == 2:
+            return [x for x in self.v_iter(args[1]) if self.v_truth(x if args[0] is None else self.v_call(args[0], [x], {}, node, env))]
+        if f in (sorted, max, min) and "key" in kw and not callable(kw["key"]) or (f in (sorted, max, min) and isinstance(kw.get("key"), (Lam, FuncRef, LocalFunc, BoundMethod))):
+            keyf = kw.pop("key")
+            items = self.v_iter(args[0]) if len(args) == 1 else list(args)
+            keyed = [(self.v_call(keyf, [x], {}, node, env), i, x) for i, x in enumerate(items)]
+            if f is sorted:
+                keyed.sort(key=lambda t: (t[0], t[1]), reverse=bool(kw.get("reverse")))
+                return [x for _, _, x in keyed]
+            pick = (max if f is max else min)(keyed, key=lambda t: t[0])
+            return pick[2]
         anyobj = any(isinstance(a, Obj) for a in args)
         if f is len and len(args) == 1 and isinstance(args[0], Obj):
             r = self.dunder(args[0], "__len__")
